@@ -6,17 +6,20 @@
    OP = (ini OBS)                      observation right after MakeTransactionPool
       | (rem GROUP would OBS)          Remember; would = 1/0: an independent fresh evaluator at the
                                        latest round accepted / rejected GROUP on top of the pending
-                                       groups (2 = not asked: pool not in sync with the ledger)
+                                       groups (2 = not asked: the pool need not be in sync)
       | (blk (GROUP ...))              the ledger appended a block with these groups
       | (onb round (txid ...) OBS)     OnNewBlock(block of that round, delta with these Txids)
    GROUP = (TX ...), TX = (id kind snd rcv amt fee fv lv lease close enc ib gid)
-   OBS = (res ((txid ...) ...) nsp over npwb ftm fpb sync replay):
+   OBS = (res ((txid ...) ...) nsp over npwb ftm fpb sync esync replay):
       error tag of the call ("ok" / "none"), PendingTxGroups as txid lists, number of pending
       singleton state-proof groups, stateproofOverflowed, numPendingWholeBlocks,
-      feeThresholdMultiplier, FeePerByte(), whether the pool's evaluator is for latest+1, and the
-      index of the first pending group that an independent fresh evaluator at the latest round
-      rejects when the pending groups are replayed in order (-1: none).
-   spec_ok (obs_hard_ok / overflow_class) looks ONLY at the inputs and the observations.
+      feeThresholdMultiplier, FeePerByte(), sync: the pool's evaluator is for latest+1, esync:
+      the pool MUST be in sync by the calls made so far (an OnNewBlock for a block at or above
+      the round the pool was working on has been delivered since the ledger last grew; computed
+      by the harness from its own calls), and the index of the first pending group that an
+      independent fresh evaluator at the latest round rejects when the pending groups are
+      replayed in order (-1: none; only computed when esync).
+   spec_ok (obs_hard_ok / obs_trans_ok / overflow_class) looks ONLY at the inputs and the observations.
    No proofs in this file. *)
 From Coq Require Import NArith ZArith List Bool String.
 Import ListNotations.
@@ -31,7 +34,8 @@ Record obs : Type := mkObs {
   o_nsp : N;
   o_over : bool;
   o_npwb : N; o_ftm : N; o_fpb : N;
-  o_sync : bool;
+  o_sync : bool;                (* the implementation's evaluator is for latest+1 *)
+  o_esync : bool;               (* the call sequence obliges the pool to be in sync *)
   o_replay : Z
 }.
 
@@ -46,10 +50,30 @@ Definition total (o : obs) : N := N.of_nat (List.length (List.concat (o_pend o))
 (* admitted = the operation was a Remember that returned nil; would = the oracle's answer *)
 Definition obs_hard_ok (maxsize : N) (committed : list N) (admitted : bool) (would : N) (o : obs) : bool :=
   nodupb (List.concat (o_pend o))
-  && (negb (o_sync o) || forallb (fun id => negb (memb id committed)) (List.concat (o_pend o)))
-  && (negb (o_sync o) || (o_replay o =? -1)%Z)
+  && (negb (o_esync o) || o_sync o)
+  && (negb (o_esync o) || forallb (fun id => negb (memb id committed)) (List.concat (o_pend o)))
+  && (negb (o_esync o) || (o_replay o =? -1)%Z)
   && (total o <=? maxsize + o_nsp o)
   && negb (admitted && (would =? 0)).
+
+(* how PendingTxGroups may change across one call (inputs: the submitted group; observations:
+   the pending lists before and after).  opk: 0 = first observation, 1 = Remember, 2 = OnNewBlock *)
+Fixpoint is_subseq (a b : list (list N)) : bool :=    (* a is a subsequence of b *)
+  match a, b with
+  | [], _ => true
+  | _ :: _, [] => false
+  | x :: a', y :: b' => if list_eqb N.eqb x y then is_subseq a' b' else is_subseq a b'
+  end.
+Definition groups_eqb (a b : list (list N)) : bool := list_eqb (list_eqb N.eqb) a b.
+
+(* spsingle: the submitted group is one state-proof transaction (from the input descriptor) *)
+Definition obs_trans_ok (maxsize : N) (opk : N) (prev : list (list N)) (gids : list N) (spsingle : bool)
+           (admitted : bool) (o : obs) : bool :=
+  if opk =? 1 then
+    (if admitted then groups_eqb (o_pend o) (prev ++ [gids]) && ((total o <=? maxsize) || spsingle)
+     else groups_eqb (o_pend o) prev)
+  else if opk =? 2 then is_subseq (o_pend o) prev
+  else true.
 
 (* 0: within the configured size; 1: over by exactly one with a singleton state proof pending;
    2: over by k >= 2 (k <= pending singleton state proofs) *)
@@ -94,22 +118,24 @@ Definition tag_code (s : string) : option (option N) :=
 
 Definition as_obs (t : term) : option obs :=
   match t with
-  | TL [TS res; TL pend; nsp; over; npwb; ftm; fpb; sync; TZ replay] =>
-      match tag_code res, map_opt as_N_list pend, as_N nsp, as_bool over, as_N npwb, as_N ftm, as_N fpb, as_bool sync with
-      | Some r, Some p, Some a, Some b, Some c, Some d, Some e, Some f => Some (mkObs r p a b c d e f replay)
-      | _, _, _, _, _, _, _, _ => None
+  | TL [TS res; TL pend; nsp; over; npwb; ftm; fpb; sync; esync; TZ replay] =>
+      match tag_code res, map_opt as_N_list pend, as_N nsp, as_bool over, as_N npwb, as_N ftm, as_N fpb, as_bool sync, as_bool esync with
+      | Some r, Some p, Some a, Some b, Some c, Some d, Some e, Some f, Some g => Some (mkObs r p a b c d e f g replay)
+      | _, _, _, _, _, _, _, _, _ => None
       end
   | _ => None
   end.
 
 (* ---------- the model's observation ---------- *)
 Definition opt_term (r : option N) : term := match r with None => TZ (-1) | Some e => tn e end.
+Definition model_sync (p : ppool) : bool :=
+  match p_eval p with Some (c, _) => c_round c =? c_round (p_ledger p) + 1 | None => false end.
 Definition model_obs (r : option N) (p : ppool) : term :=
   TL [opt_term r; TL (map (fun g => TL (map (fun t => tn (t_id t)) g)) (p_pending p));
-      tb (p_over p); tn (p_npwb p); tn (p_ftm p); tn (p_fpb p)].
+      tb (p_over p); tn (p_npwb p); tn (p_ftm p); tn (p_fpb p); tb (model_sync p)].
 Definition impl_obs (o : obs) : term :=
   TL [opt_term (o_res o); TL (map (fun g => TL (map tn g)) (o_pend o));
-      tb (o_over o); tn (o_npwb o); tn (o_ftm o); tn (o_fpb o)].
+      tb (o_over o); tn (o_npwb o); tn (o_ftm o); tn (o_fpb o); tb (o_sync o)].
 
 (* ---------- running a history ---------- *)
 Record kst : Type := mkK {
@@ -121,7 +147,7 @@ Record kst : Type := mkK {
   k_first : term;           (* first difference (op index, model observation) *)
   k_bad : bool;
   k_adm : N; k_rej : N; k_drop : N;     (* admitted / rejected submissions, recomputes that dropped a group *)
-  k_prev : N                (* pending groups observed after the previous operation *)
+  k_prev : list (list N)    (* PendingTxGroups observed after the previous operation *)
 }.
 
 Definition upd (c : kst) (idx : N) (s' : option psys) (com : list N) (hard : bool) (o : obs)
@@ -133,8 +159,8 @@ Definition upd (c : kst) (idx : N) (s' : option psys) (com : list N) (hard : boo
       (if k_corr c && negb good then TL [tn idx; match mobs with Some m => m | None => TS "model_lost" end] else k_first c)
       false
       (if adm then k_adm c + 1 else k_adm c) (if rej then k_rej c + 1 else k_rej c)
-      (if isonb && (npend <? k_prev c) then k_drop c + 1 else k_drop c)
-      npend.
+      (if isonb && (npend <? N.of_nat (List.length (k_prev c))) then k_drop c + 1 else k_drop c)
+      (o_pend o).
 
 Definition do_op (P : eparams) (maxsize expf : N) (c : kst) (idx : N) (t : term) : kst :=
   if k_bad c then c else
@@ -153,7 +179,9 @@ Definition do_op (P : eparams) (maxsize expf : N) (c : kst) (idx : N) (t : term)
       match as_group gt, as_N wt, as_obs ot with
       | Some g, Some would, Some o =>
           let admitted := match o_res o with None => true | Some _ => false end in
-          let hard := obs_hard_ok maxsize (k_com c) admitted would o in
+          let spsingle := match g with [t] => t_kind t =? 1 | _ => false end in
+          let hard := obs_hard_ok maxsize (k_com c) admitted would o
+                      && obs_trans_ok maxsize 1 (k_prev c) (map t_id g) spsingle admitted o in
           match k_sys c with
           | Some s =>
               let '(s', r) := p_step P maxsize expf s (ORemember g) in
@@ -185,7 +213,8 @@ Definition do_op (P : eparams) (maxsize expf : N) (c : kst) (idx : N) (t : term)
   | TL [TS "onb"; rt; idst; ot] =>
       match as_N rt, as_N_list idst, as_obs ot with
       | Some r, Some ids, Some o =>
-          let hard := obs_hard_ok maxsize (k_com c) false 2 o in
+          let hard := obs_hard_ok maxsize (k_com c) false 2 o
+                      && obs_trans_ok maxsize 2 (k_prev c) [] false false o in
           match k_sys c with
           | Some s =>
               let '(s', _) := p_step P maxsize expf s (OOnNewBlock r ids) in
@@ -213,7 +242,7 @@ Definition check (t : term) : term :=
             let P := mkEP minfee minbal_ maxlife maxgroup maxbytes spint in
             let expf := clamp_expf ef in
             let l0 := mkCst rd bl [] [] sp in
-            let c0 := mkK (Some (p_init P l0)) [] true 0 true (TL []) false 0 0 0 0 in
+            let c0 := mkK (Some (p_init P l0)) [] true 0 true (TL []) false 0 0 0 [] in
             let c := do_ops P maxsize expf c0 0 ops in
             if k_bad c then v_parse
             else if negb (k_hard c) then v_viol (k_first c)
